@@ -938,6 +938,65 @@ MUTANTS = [
       "        except Exception:\n"
       "            action_heartbeat_sender.remove_action(action_ex_id)\n"
       "            raise"),
+    # ---- round four: shared cached specs, fresh policies, trust context --
+    m('C05-on-complete-spec-takes-clause-publish', 'C05', ['R10'],
+      'mistral/lang/v2/tasks.py',
+      "            if spec:\n                on_clause.get_publish().merge(spec)"
+      "\n\n            return on_clause.get_publish()",
+      "            if not spec:\n                return on_clause.get_publish()"
+      "\n\n            spec.merge(on_clause.get_publish())"),
+    m('C05-merge-writes-into-argument', 'C05', ['R10'],
+      'mistral/lang/v2/publish.py',
+      "                self._branch = utils.merge_dicts(\n"
+      "                    {} if self._branch is None else self._branch,\n"
+      "                    spec_to_merge.get_branch()\n                )",
+      "                self._branch = utils.merge_dicts(\n"
+      "                    spec_to_merge.get_branch(),\n"
+      "                    {} if self._branch is None else self._branch\n"
+      "                )"),
+    m('C05-final-context-plain-merge-under-versioning', 'C05', ['R8'],
+      W + 'direct_workflow.py',
+      "                ctx = data_flow.evaluate_upstream_context(\n"
+      "                    batch,\n                    additive_context=ctx\n"
+      "                )",
+      "                ctx = utils.merge_dicts(\n                    ctx,\n"
+      "                    data_flow.evaluate_upstream_context(batch)\n"
+      "                )"),
+    m('C08-policy-list-memoized', 'C08', ['R10'], E + 'policies.py',
+      "def build_policies(policies_spec, wf_spec):",
+      "@functools.lru_cache(maxsize=1000)\n"
+      "def build_policies(policies_spec, wf_spec):"),
+    m('C08-retry-policy-factory-cached', 'C08', ['R10'], E + 'policies.py',
+      "def build_retry_policy(policies_spec):",
+      "@cachetools.cached(cachetools.LRUCache(maxsize=100))\n"
+      "def build_retry_policy(policies_spec):"),
+    m('C14-reverse-requires-accept-engine-commands', 'C14', ['R10'],
+      'mistral/lang/v2/workflows.py',
+      "                self._validate_task_link(req, allow_engine_cmds=False)",
+      "                self._validate_task_link(req)"),
+    m('C14-task-link-commands-always-valid', 'C14', ['R10'],
+      'mistral/lang/v2/workflows.py',
+      "        if allow_engine_cmds:\n            valid_task |= task_name in "
+      "ENGINE_COMMANDS",
+      "        valid_task |= task_name in ENGINE_COMMANDS"),
+    m('C14-reverse-own-requires-only', 'C14', ['R10'],
+      'mistral/lang/v2/workflows.py',
+      "            for req in self.get_task_requires(t_s):\n"
+      "                self._validate_task_link(req, allow_engine_cmds=False)",
+      "            for req in t_s.get_requires():\n"
+      "                self._validate_task_link(req, allow_engine_cmds=False)"),
+    m('C17-trustless-trigger-admin-context', 'C17', ['R4'],
+      'mistral/services/security.py',
+      "    if CONF.pecan.auth_enable:\n        client = "
+      "keystone.client_for_trusts(trust_id)",
+      "    if CONF.pecan.auth_enable and trust_id:\n        client = "
+      "keystone.client_for_trusts(trust_id)"),
+    m('C17-trust-context-without-project', 'C17', ['R4'],
+      'mistral/services/security.py',
+      "            user_id=user_id,\n            project_id=project_id,\n"
+      "            auth_token=token,\n            is_trust_scoped=True,",
+      "            user_id=user_id,\n            project_id=None,\n"
+      "            auth_token=token,\n            is_trust_scoped=True,"),
 ]
 
 
@@ -1278,4 +1337,39 @@ REFACTORS = [
       "    raise exc.DSLParsingException(\n"
       "        \"Definition must be a YAML mapping, got '%s' instead.\" %\n"
       "        type(data).__name__\n    )"),
+    r('C05-ref-get-publish-local-clause-spec', 'C05',
+      'mistral/lang/v2/tasks.py',
+      "        if on_clause and on_clause.get_publish():\n"
+      "            if spec:\n                on_clause.get_publish().merge(spec)"
+      "\n\n            return on_clause.get_publish()",
+      "        clause_publish = on_clause.get_publish() if on_clause else None"
+      "\n\n        if clause_publish:\n"
+      "            if spec:\n                clause_publish.merge(spec)"
+      "\n\n            return clause_publish"),
+    r('C14-ref-task-link-early-return', 'C14', 'mistral/lang/v2/workflows.py',
+      "        valid_task = self._task_exists(task_name)\n\n"
+      "        if allow_engine_cmds:\n            valid_task |= task_name in "
+      "ENGINE_COMMANDS\n\n        if not valid_task:\n"
+      "            raise exc.InvalidModelException(\n"
+      "                \"Task '%s' not found.\" % task_name\n            )",
+      "        if self._task_exists(task_name):\n            return\n\n"
+      "        if allow_engine_cmds and task_name in ENGINE_COMMANDS:\n"
+      "            return\n\n"
+      "        raise exc.InvalidModelException(\n"
+      "            \"Task '%s' not found.\" % task_name\n        )"),
+    r('C17-ref-context-auth-disabled-first', 'C17',
+      'mistral/services/security.py',
+      "    if CONF.pecan.auth_enable:\n        client = "
+      "keystone.client_for_trusts(trust_id)",
+      "    if not CONF.pecan.auth_enable:\n"
+      "        return auth_ctx.MistralContext(\n"
+      "            user_id=None,\n            project_id=None,\n"
+      "            auth_token=None,\n            is_admin=True\n        )\n\n"
+      "    if True:\n        client = "
+      "keystone.client_for_trusts(trust_id)"),
+    r('C08-ref-policies-local-list', 'C08', E + 'tasks.py',
+      "        for p in policies.build_policies(policies_spec, self.wf_spec):"
+      "\n            p.before_task_start(self)",
+      "        built = policies.build_policies(policies_spec, self.wf_spec)\n"
+      "\n        for p in built:\n            p.before_task_start(self)"),
 ]
